@@ -284,6 +284,7 @@ def run(ctx):
         judge(ctx, scn, sc, step, r[0]["trace"], extra, tag)
     stale_record_family(ctx, rng, 150 if quick else 3000)
     dyndep_cycle_family(ctx, rng, 150 if quick else 3000)
+    dyndep_binding_cycle_family(ctx, rng, 150 if quick else 3000)
     ctx.rule = ("all graphs with 1..2 statements over 3 files (1 explicit + optional implicit output; each other file: none / explicit / "
                 "implicit / order-only / validation), every %d-th graph with 3 statements over 4 files, random graphs of 4..%d statements "
                 "with planted back edges, validations nested 1..3 deep with the cycle behind the last level, stale-record and dyndep mid-build families; distinct_nontrivial = distinct scenarios whose "
@@ -368,6 +369,48 @@ def dyndep_cycle_family(ctx, rng, n):
             ctx.inconclusive += 1
             continue
         judge(ctx, scn, sc, step, r[0]["trace"], extra, "/dyndep-mid-build")
+
+
+def dyndep_binding_cycle_family(ctx, rng, n):
+    """a cycle that runs through a statement's dyndep binding while the dyndep file is still pending (its producer is on the
+    cycle): found at scan time, entered from any of its members or from above; the reported path must be a path of the graph"""
+    jobs = []
+    for k in range(n):
+        between = rng.randint(0, 2)
+        srcs = {"out.src": "// served\n", "t.c": "// t\n", "up.c": "// up\n"}
+        out = St("out", ["out"], ins=["out.src"], dd=True, dyndep="dd")
+        if rng.random() < 0.5:
+            out["oins"] = ["dd"]
+        else:
+            out["iins"] = ["dd"]
+        chain, prev = [], "out"
+        for b in range(between):
+            srcs["m%d.c" % b] = "// m\n"
+            st = St("mid%d" % b, ["mid%d" % b], ins=["m%d.c" % b])
+            st[rng.choice(("ins", "iins", "oins"))].append(prev)
+            chain.append(st)
+            prev = "mid%d" % b
+        top = St("top", ["top"], ins=["t.c", prev])
+        closes = rng.random() < 0.7
+        scan = St("scan", ["dd"], ins=["out.src"] + (["top"] if closes else []), kind="scan", serves=[["out", "out.src"]])
+        up = St("up", ["up"], ins=["up.c", rng.choice(("top", "out", "dd"))])
+        stmts = [out] + chain + [top, scan, up]
+        rng.shuffle(stmts)
+        sc = {"id": "C17-B-%d-%d" % (ctx.seed, k), "pools": {}, "defaults": [], "sources": srcs, "stmts": stmts}
+        step = {"op": "build", "targets": rng.choice(([], ["top"], ["out"], ["dd"], ["up"], ["up", "top"])), "j": rng.choice((1, 2)), "k": 1,
+                "sched": {"mode": "prng", "seed": k}}
+        jobs.append((simlib.scenario_json(sc, [step]), sc, step))
+    res = {}
+
+    def handler(scn, results, err):
+        res[scn["id"]] = results
+    simlib.run_scenarios([j[0] for j in jobs], handler)
+    for scn, sc, step in jobs:
+        r = res.get(scn["id"])
+        if not r:
+            ctx.inconclusive += 1
+            continue
+        judge(ctx, scn, sc, step, r[0]["trace"], None, "/dyndep-binding")
 
 
 def replay(ctx, path):
